@@ -4,6 +4,7 @@
   nothing here is used by a theorem; it is part of the trusted correspondence glue.
 -/
 import Genql.Basic
+import Genql.Model.Compare
 namespace Genql
 
 /-- exact decomposition `|x| = m * 2^e` of a finite double from its bit pattern -/
@@ -29,48 +30,13 @@ def floatToInt? (x : Float) : Option Int :=
         if m % d == 0 then some (m / d) else none
     mag.map fun n => if sign then -(n : Int) else n
 
-def natToDigits (n : Nat) : String := toString n
-
-/-- `|x| * 10^k` rounded half-even to a natural number, computed exactly -/
-def scaledRound (m : Nat) (e : Int) (k : Nat) : Nat :=
-  let num := m * 10 ^ k
-  if e ≥ 0 then num * 2 ^ e.toNat
-  else
-    let d := 2 ^ (-e).toNat
-    let q := num / d
-    let r := num % d
-    if 2 * r > d then q + 1 else if 2 * r < d then q else (if q % 2 == 0 then q else q + 1)
-
-def padLeft (s : String) (n : Nat) : String :=
-  String.ofList (List.replicate (n - s.length) '0') ++ s
-
-def stripZeros (s : String) : String :=
-  String.ofList (s.toList.reverse.dropWhile (· == '0')).reverse
-
-/-- Go's `%v` of a float64 when 1e-4 ≤ |x| < 2^53 (printed without an exponent, digits exact) and the
-    shortest round-tripping decimal has at most 17 fractional digits; `none` otherwise. -/
+/-- Go's `%v` of a float64, through the exact-dyadic printer of `Genql.Model.Compare` (positional
+    for 1e-4 ≤ |x| < 1e6, exponent form up to 2^53, at most 15 significant digits; `none` = out of
+    model).  Negative zero, NaN and ±Inf are out of model. -/
 def floatFmt (x : Float) : Option String :=
-  match floatParts x with
+  match Cmp.decodeFloat 11 52 x.toBits.toNat with
+  | some d => Cmp.fmtGo (.f64 d)
   | none => none
-  | some (sign, m, e) =>
-    if m == 0 then some (if sign then "-0" else "0")
-    else
-      let ax := Float.abs x
-      if ax ≥ 9007199254740992.0 || ax < 1e-4 then none
-      else
-        let rec go (k : Nat) (fuel : Nat) : Option String :=
-          match fuel with
-          | 0 => none
-          | fuel + 1 =>
-            let n := scaledRound m e k
-            if Float.ofScientific n true k == ax then
-              let digits := padLeft (natToDigits n) (k + 1)
-              let ip := (digits.toList.take (digits.length - k))
-              let fp := (digits.toList.drop (digits.length - k))
-              let body := if k == 0 then String.ofList ip else String.ofList ip ++ "." ++ String.ofList fp
-              some ((if sign then "-" else "") ++ body)
-            else go (k + 1) fuel
-        go 0 19
 
 instance : Num Float where
   add := (· + ·)
